@@ -271,7 +271,7 @@ def run(ctx, anchors=None):
         if f.name.endswith("ScriptExecutionEnvironment"):
             ctx.inst(rhs in ("false", "{false}"), "R17.4", "allow-default-false", f.loc(n), "constructor default of allow_disabled_opcodes is false",
                      "constructor initialises allow_disabled_opcodes to %s" % rhs)
-        elif f.d.get("main"):
+        elif f.file == "btcdeb.cpp":
             # must derive from option 'z'
             src = rhs
             defs = [d for m in f.nodes() if m["k"] == "decl" for d in m["decls"] if d["n"] == rhs and d.get("init")]
